@@ -209,3 +209,4 @@ def run(ctx):
     r.require_min(1)
 
     rule_roundup(ctx, P)
+    ctx.borrow('c13', ['R13b'], 'size queries on an unknown descriptor must return an error, not dereference the failed look-up')
